@@ -8,5 +8,6 @@ INVARIANT InvAdmissible
 INVARIANT InvSignRefinement
 INVARIANT InvSpellingRefinement
 INVARIANT InvClifford
+INVARIANT InvRelabel
 INVARIANT InvTypeNumber
 CHECK_DEADLOCK FALSE
